@@ -13,7 +13,7 @@ from sim import core, gen_path as gp, observe as ob
 
 PROPERTY = "C18"
 LEVEL = "exploration"
-QUICK_RUNS = 30000
+QUICK_RUNS = 120000
 THOROUGH_RUNS = 1500000
 RULE = (
     "seeded two-owner histories: an object of a scheduler-chosen kind (Point, Matrix, Color, Length, each segment kind, "
